@@ -39,6 +39,18 @@ def run_case(case, rng):
             tgt = rng.choice(up) if up else max(lst, key=lambda x: x[1])[0]   # keeps the MDP proper
             sp.P[key] = [(tgt, 1.0)]
             sp.kind[key] = "dict"
+        if rng.random() < 0.5:
+            # one of the actions is called 0 / "" / () / False: a label like any other
+            falsy = rng.choice([0, "", (), 0.0])
+            universe = sp.action_universe()
+            if falsy not in universe and universe:
+                old_a = universe[0]
+                ren = lambda a_: falsy if a_ == old_a and type(a_) is type(old_a) else a_
+                sp.acts = {s_: tuple(ren(a_) for a_ in acts_) for s_, acts_ in sp.acts.items()}
+                sp.P = {(s_, ren(a_)): v_ for (s_, a_), v_ in sp.P.items()}
+                sp.kind = {(s_, ren(a_)): v_ for (s_, a_), v_ in sp.kind.items()}
+                sp.R = {(s_, ren(a_), t_): v_ for (s_, a_, t_), v_ in sp.R.items()}
+                sp.meta["falsy_action_label"] = repr(falsy)
         costs = rng.choice([[-1, -1, -2], [0, 0, -1, -2]])       # with free moves some non-absorbing states are worth exactly 0
         for key in sp.R:
             sp.R[key] = float(rng.choice(costs))
@@ -133,7 +145,13 @@ def run_case(case, rng):
     from mon import defaults as Dflt
     lkw, _om = Dflt.rely_on_defaults(case, rng, "LRTDP", dict(bellman_error_margin=margin, randomize_action_order=rao,
                                                               event_listener_class=Probe, seed=seed, **extra_kw))
-    planner = LRTDP(heuristic=lambda s: h[s], **lkw)
+    htype = rng.choice(["float", "float", "np.float64", "0-d array", "int-if-integral"])
+    conv = {"float": float, "np.float64": np.float64, "0-d array": np.asarray,
+            "int-if-integral": (lambda v: int(v) if float(v).is_integer() else v)}[htype]
+    hobj = {s_: conv(v_) for s_, v_ in h.items()}              # ONE stored object per state, handed out every time
+    hsnap = {s_: float(v_) for s_, v_ in hobj.items()}
+    case.params["heuristic_value_type"] = htype
+    planner = LRTDP(heuristic=lambda s: hobj[s], **lkw)
     Dflt.in_force(case, "LRTDP", planner, passed=lkw)
     reuse = rng.random() < 0.3
     if reuse:
@@ -154,6 +172,9 @@ def run_case(case, rng):
                 pass
     res = case.call("LRTDP.plan_on", planner.plan_on, mdp, facts=dict(gamma=gamma, heuristic=hk))
     case.count("lrtdp_calls")
+    now_h = {s_: float(v_) for s_, v_ in hobj.items()}
+    case.check(now_h == hsnap, "planner-changed-the-heuristic's-own-value-objects",
+               lambda: f"{[(s_, hsnap[s_], now_h[s_]) for s_ in hsnap if hsnap[s_] != now_h[s_]][:3]!r}", heuristic_value_type=htype)
     if res is case.FAIL:
         return
     if rng.random() < 0.3:
